@@ -1584,10 +1584,38 @@ func termTemplate(t *T) []pseg {
 				if len(t.A) >= 1 {
 					if f, ok := t.A[0].strVal(); ok {
 						lits, verbs := parseFormat(f)
-						if len(verbs) == len(t.A)-1 {
+						// explicit argument indexes (%[1]v): resolve them, as fmt does
+						argOf := make([]int, len(verbs))
+						okIdx := true
+						next := 0
+						for i, vb := range verbs {
+							if strings.Contains(vb, "*") {
+								okIdx = false
+							}
+							if a := strings.Index(vb, "["); a >= 0 {
+								b := strings.Index(vb, "]")
+								n, err := strconv.Atoi(vb[a+1 : max2i(b, a+1)])
+								if b < a || err != nil || n < 1 {
+									okIdx = false
+								} else {
+									next = n - 1
+									verbs[i] = vb[:a] + vb[b+1:]
+								}
+							}
+							argOf[i] = next
+							next++
+							if argOf[i] >= len(t.A)-1 {
+								okIdx = false
+							}
+						}
+						used := map[int]bool{}
+						for _, k := range argOf {
+							used[k] = true
+						}
+						if okIdx && len(used) == len(t.A)-1 {
 							for i, vb := range verbs {
 								add(pseg{Lit: lits[i]})
-								arg := t.A[i+1]
+								arg := t.A[argOf[i]+1]
 								if (vb == "s" || vb == "v") && arg.Typ != nil {
 									if b, ok := arg.Typ.Underlying().(*types.Basic); ok && b.Info()&types.IsString != 0 && (arg.Op == "call" || arg.Op == "binop" || arg.isConst()) {
 										walk(arg) // %s of a string that is itself built: flatten
@@ -1924,4 +1952,11 @@ func (s *pxState) mapDel(m, k *T) {
 			delete(s.mem, pre+strconv.Itoa(i)+"v")
 		}
 	}
+}
+
+func max2i(a, b int) int {
+	if a > b {
+		return a
+	}
+	return b
 }
